@@ -12,7 +12,12 @@ import (
 
 // c14Doc draws a document for one step: small valid, mutated, deep, at/over the limit.
 func c14Doc(rt *rapid.T) []byte {
-	switch rapid.IntRange(0, 21).Draw(rt, "docclass") {
+	switch rapid.IntRange(0, 22).Draw(rt, "docclass") {
+	case 22:
+		// far beyond the limit of the skip functions: the traversals have none of their own, so
+		// a declined member this deep grows (and may make the library trim) the shared stack
+		d := []int{20000, 40000, 66000, 70000, 140000}[rapid.IntRange(0, 4).Draw(rt, "verydeep")]
+		return gen.NestSpec{Depth: d, Pattern: []string{"a", "o", "ao"}[rapid.IntRange(0, 2).Draw(rt, "pat")], Close: d, Bottom: "1", Sibling: rapid.Bool().Draw(rt, "sib")}.Build()
 	case 20, 21:
 		// mid-depth shapes (hundreds to thousands of levels): far below the limit, deeper than any
 		// freshly made stack; balanced, unbalanced, or cut off - with a warmed Buffer these
@@ -60,7 +65,7 @@ func c14Doc(rt *rapid.T) []byte {
 func TestC14(t *testing.T) {
 	runProp(t, "C14", func(e *env) {
 		r := e.r
-		e.rapidStage("histories", "stateful", e.cfg.N(1500, 250000), func(rt *rapid.T) {
+		e.rapidStage("histories", "stateful", e.cfg.N(1100, 250000), func(rt *rapid.T) {
 			var run c14Runner
 			var hist []core.Case
 			hkey := uint64(14695981039346656037)
